@@ -97,7 +97,8 @@ func genListen(rng *rand.Rand, v6 bool, mcast []string, wantBad string) listenSp
 	}
 	ps := ""
 	if port != 0 {
-		ps = fmt.Sprintf(":%d", port)
+		// a port is a decimal number: leading zeros and an explicit plus sign do not change it
+		ps = fmt.Sprintf([]string{":%d", ":%d", ":%d", ":0%d", ":00%d", ":+%d"}[rng.Intn(6)], port)
 	}
 	zs := ""
 	if zone != "" {
@@ -117,9 +118,9 @@ func genListen(rng *rand.Rand, v6 bool, mcast []string, wantBad string) listenSp
 			return listenSpec{text: []string{"10.0.0.300", "not-an-address" + ps, "10.0.0", "10.0.0.1.2" + zs}[rng.Intn(4)], bad: wantBad}
 		default: // bad-port
 			if v6 {
-				return listenSpec{text: []string{"[::]:abc", "[2001:db8::1]:5x", "[::]:5 47"}[rng.Intn(3)], bad: wantBad}
+				return listenSpec{text: []string{"[::]:abc", "[2001:db8::1]:5x", "[::]:5 47", "[::]:0x223", "[::]:5_47", "[::]:547.0", "[::]:0b1000100011", "[::]:0o1043"}[rng.Intn(8)], bad: wantBad}
 			}
-			return listenSpec{text: []string{"10.0.0.1:abc", ":port", "0.0.0.0:6 7", "10.0.0.1:67x"}[rng.Intn(4)], bad: wantBad}
+			return listenSpec{text: []string{"10.0.0.1:abc", ":port", "0.0.0.0:6 7", "10.0.0.1:67x", ":0x43", "10.0.0.1:6_7", ":67.0", ":0b1000011", "0.0.0.0:0o103", ":1e2"}[rng.Intn(10)], bad: wantBad}
 		}
 	}
 	if v6 {
